@@ -15,6 +15,17 @@ CHECKS = {
          "tables, sampled beyond.",
          "Reference grammar and prefix table in vlib/ref/units_ref.py are trusted; floating-point factors "
          "compared at 1e-12 relative.", "DESIGN.md 4/C09"),
+ "C06": ("generated + exhaustive rank-1 index expressions, differential against NumPy on an in-memory copy",
+         "Every int/slice expression on every window of rank-1 arrays up to length 4 (quick) / 5 (thorough) is "
+         "enumerated; ranks 2-4 with ellipsis, negative ints, stepped and out-of-range slices are Hypothesis-"
+         "generated; reads and writes through DataArray and DataView are compared with NumPy, whole array after "
+         "each write.", "NumPy basic indexing is the reference; h5py/libhdf5 trusted as substrate.", "DESIGN.md 4/C06"),
+ "C07": ("exhaustive dyadic grid + Hypothesis sampling vs. exact rational model of sample coordinates",
+         "index_of / range_indices / position_at / tick_at / axis of all three descriptor kinds are compared with "
+         "a Fraction-arithmetic model on an exhaustively enumerated dyadic grid (intervals x offsets x positions "
+         "x modes) and on sampled decimal intervals and indices up to 2e6.",
+         "positions are symbolic (offset+(k+f)*interval) so floating-point rounding cannot flip the expected answer.",
+         "DESIGN.md 4/C07"),
 }
 PENDING = {}
 
